@@ -178,6 +178,29 @@ void StarZone__get_local_route(struct StarZone* self, struct NetPoint* src, stru
                       (g_res.gw_src_ == __CPROVER_old(g_res.gw_src_) && g_res.gw_dst_ == __CPROVER_old(g_res.gw_dst_)))
     /*@ star_loopback_route_names_no_gateway */;
 
+/* ---------------- DragonflyZone::rankId_to_coords ---------------------------------------------------------------- */
+/* exact mixed-radix decomposition of the rank: (group, chassis, blade, node) with chassis < C, blade < B, node < N and
+   rank == ((group * C + chassis) * B + blade) * N + node  (so the map is the inverse of the documented numbering) */
+#ifndef DIM_MAX
+#define DIM_MAX 8 /* chassis per group, blades per chassis, nodes per blade: 1..DIM_MAX; ranks below RANK_MAX */
+#endif
+#ifndef RANK_MAX
+#define RANK_MAX 4096
+#endif
+struct DragonflyZone g_df;
+#define DC ((unsigned long)g_df.num_chassis_per_group_)
+#define DB ((unsigned long)g_df.num_blades_per_chassis_)
+#define DN ((unsigned long)g_df.num_nodes_per_blade_)
+#define RV __CPROVER_return_value
+struct Coords DragonflyZone__rankId_to_coords(struct DragonflyZone* self, unsigned long rankId)
+    __CPROVER_requires(self == &g_df && vf_exc == 0 && 1 <= DC && DC <= DIM_MAX && 1 <= DB && DB <= DIM_MAX && 1 <= DN &&
+                       DN <= DIM_MAX && rankId < RANK_MAX)
+    __CPROVER_assigns()
+    __CPROVER_ensures(vf_exc == 0)
+    __CPROVER_ensures(RV.chassis < DC && RV.blade < DB && RV.node < DN) /*@ coords_each_digit_below_its_radix */
+    __CPROVER_ensures(((RV.group * DC + RV.chassis) * DB + RV.blade) * DN + RV.node == rankId)
+    /*@ coords_recompose_to_the_rank */;
+
 #include "gen.c"
 
 size_t nondet_size(void);
@@ -236,6 +259,15 @@ void harness(void)
   __CPROVER_assume(s < NE && d < NE);
   g_np[s].id_ = s, g_np[d].id_ = d;
   StarZone__get_local_route(&g_sz, &g_np[s], &g_np[d], &g_res, nondet_bool() ? NULL : &g_lat);
+  VF_CANARY_POINT;
+}
+#endif
+#ifdef H_coords
+unsigned long nondet_ulong(void);
+void harness(void)
+{
+  vf_exc = 0;
+  DragonflyZone__rankId_to_coords(&g_df, nondet_ulong());
   VF_CANARY_POINT;
 }
 #endif
